@@ -35,6 +35,22 @@ int main(int argc, char **argv) {
     auto r = t->connectSync("peer", 1, TlsMode::None, std::chrono::milliseconds(5000)); io.join();
     if (r.isOk() || !log.empty()) replay_io::fail("S1 a session connectSync never handed out must produce no global callback and no observer call");
     replay_io::ok("suppressed");
+  } else if (scen == 6) {
+    // clauses GCW / GC2 (C03): session 7 is closed with bytes AB still unread; the close of ANOTHER session runs the stale-tombstone GC; a late receiveSync(7) must still
+    // get AB and then PeerClosed
+    TransportConfig cfg; cfg.syncBufferGcThreshold = 0;                 // the GC runs on every close
+    auto eng2 = std::make_unique<ScriptedEngine>(); ScriptedEngine *e2 = eng2.get();
+    auto t2 = Transport::withEngine(std::move(eng2), cfg);
+    t2->setReadMode(7, ReadMode::Sync);
+    e2->cbs.onData(7, iora::core::BufferView((const uint8_t *)"AB", 2), std::chrono::steady_clock::now());
+    e2->cbs.onClose(7, TransportErrorInfo{TransportError::PeerClosed, "peer closed"});
+    e2->cbs.onClose(8, TransportErrorInfo{TransportError::PeerClosed, "peer closed"});      // another session closes: GC
+    uint8_t b[8]; size_t len = 8; auto r1 = t2->receiveSync(7, b, len, std::chrono::milliseconds(50));
+    printf("7: Sync, AB buffered, closed; 8 closes (GC); receiveSync(7) -> %s", r1.isOk() ? "ok " : "err "); if (r1.isOk()) printf("%zu bytes\n", r1.value()); else printf("code=%d\n", (int)r1.error().code);
+    if (!r1.isOk() || r1.value() != 2 || b[0] != 'A' || b[1] != 'B') replay_io::fail("GCW/GC2 (C03): the bytes that arrived before the close were lost - the GC of another session's close erased the undrained tombstone");
+    len = 8; auto r2 = t2->receiveSync(7, b, len, std::chrono::milliseconds(50));
+    if (r2.isOk() || r2.error().code != TransportError::PeerClosed) replay_io::fail("D3 after the drain the close must be reported (PeerClosed)");
+    replay_io::ok("undrained tombstone survives the GC: AB, then PeerClosed");
   } else if (scen == 5) {
     // clause UN8: observe A, B, C; unobserve A; close -> the remaining observers run in REGISTRATION order: B then C
     auto a = t->observe(sid, [&](SessionId, const TransportErrorInfo &) { log.push_back("A"); });
